@@ -12,6 +12,7 @@ import (
 	"strconv"
 	"strings"
 	"sync"
+	"sync/atomic"
 	"time"
 
 	"github.com/plgd-dev/go-coap/v3/message/pool"
@@ -49,7 +50,10 @@ type poolTracker struct {
 	tagG bool
 	gids []int64
 	nUse int // Use events recorded by Used in the current scenario
+	gate atomic.Pointer[useGate]
 }
+
+func (t *poolTracker) setGate(g *useGate) { t.gate.Store(g) }
 
 // curGID returns the id of the calling goroutine (from the header line of its stack trace).
 func curGID() int64 {
@@ -327,6 +331,9 @@ func (t *poolTracker) AppRel(m *pool.Message) {
 // use_not_released_irrelevant), so leaving them out cannot turn a rejected trace into an accepted one or vice versa.
 // A message this scenario has not seen released or held is not looked at.
 func (t *poolTracker) Used(m *pool.Message) {
+	if g := t.gate.Load(); g != nil && g.m == m {
+		g.arrive() // family G: the n-th access of a foreign goroutine to this message waits here for the script
+	}
 	t.mu.Lock()
 	if id, ok := t.ids[m]; ok {
 		if st := t.state[id]; st == 3 || st == 4 {
